@@ -4,6 +4,7 @@ import (
 	"encoding/json"
 	"fmt"
 	"math/rand/v2"
+	"reflect"
 
 	"github.com/philpearl/avro"
 
@@ -297,6 +298,54 @@ func c14generated(c *core.Ctx, r *rand.Rand) {
 	c.Count("generated-schemas", 1)
 }
 
+// c14shared: Schema values are plain Go values, and copies of one Schema share its *SchemaObject. A schema
+// that contains the same node several times (hand-assembled, or generated for a struct that uses a type with
+// a registered schema in several positions) is not cyclic and must serialise like any other.
+type c14ID [19]byte
+type c14Colour string
+type c14UsesTwice struct {
+	ID     c14ID            `json:"id"`
+	Parent c14ID            `json:"parent"`
+	Others []c14ID          `json:"others"`
+	ByName map[string]c14ID `json:"by_name"`
+	C1     c14Colour        `json:"c1"`
+	C2     *c14Colour       `json:"c2"`
+}
+
+var c14registered bool
+
+func c14shared(c *core.Ctx, r *rand.Rand) {
+	ir := gen.GenSchemaDoc(r, 2)
+	text := gen.RenderSchemaDoc(r, ir)
+	node, err := avro.SchemaFromString(text)
+	if err != nil {
+		return
+	}
+	comp := avro.Schema{Type: "record", Object: &avro.SchemaObject{Name: "shared", Fields: []avro.SchemaRecordField{
+		{Name: "x", Type: node},
+		{Name: "y", Type: node},
+		{Name: "z", Type: avro.Schema{Type: "array", Object: &avro.SchemaObject{Items: node}}},
+		{Name: "w", Type: avro.Schema{Type: "union", Union: []avro.Schema{{Type: "null"}, node}}},
+	}}}
+	if node.Type == "union" {
+		comp.Object.Fields = comp.Object.Fields[:3]
+	}
+	c.Eval(1)
+	c14roundTrip(c, comp, "a record that contains one parsed schema value in several positions", text)
+	c.Count("shared-node-schemas", 1)
+	if !c14registered {
+		c14registered = true
+		avro.RegisterSchema(reflect.TypeOf(c14ID{}), avro.Schema{Type: "fixed", Object: &avro.SchemaObject{Name: "ID", Size: 19}})
+		avro.RegisterSchema(reflect.TypeOf(c14Colour("")), avro.Schema{Type: "enum", Object: &avro.SchemaObject{Name: "Colour", Symbols: []string{"RED", "GREEN"}}})
+	}
+	gs, err := avro.SchemaForType(c14UsesTwice{})
+	if err != nil {
+		c.Violate("marshal", "SchemaForType refused a struct using registered types twice: "+err.Error(), nil)
+		return
+	}
+	c14roundTrip(c, gs, "SchemaForType of a struct that uses types with registered fixed/enum schemas in several positions", "")
+}
+
 func runC14(c *core.Ctx, i int) {
 	r := c.Rand(i, 0)
 	n := c.Pick(1200, 16000)
@@ -307,6 +356,9 @@ func runC14(c *core.Ctx, i int) {
 		}
 		if k%5 == 0 {
 			c14generated(c, r)
+		}
+		if k%7 == 0 {
+			c14shared(c, r)
 		}
 	}
 }
